@@ -410,9 +410,16 @@ def r4(chk, repo):
     iname = unparse(i)
 
     def edge_ok(a, b, label):
-        if a.kind == "test" and match(f"{iname} in self.wait_futures",
-                                      a.expr) is not None and label == "false":
-            return False
+        if a.kind == "test" and label in ("true", "false"):
+            facts = []
+            from .common import _decompose
+            _decompose(a.expr, label == "true", facts)
+            for e, t in facts:
+                if (not t and match(f"{iname} in self.wait_futures", e)
+                        is not None) or (t and match(
+                            f"{iname} not in self.wait_futures", e)
+                        is not None):
+                    return False
         if a.kind == "assert" and match(
                 f"{iname} not in self.wait_futures", a.stmt.test) is not None:
             return False
